@@ -34,10 +34,10 @@ pub fn focus_for(prop: &str) -> Focus {
 pub fn make_run(seed: u64, focus: Focus) -> (ops::Init, gensrc::GenSource, String) {
     let mut rng = prng::Rng::new(seed);
     let swarm = gensrc::Swarm::draw(&mut rng, focus);
-    let weights: [u32; 6] = match focus {
-        Focus::Faults => [20, 40, 15, 5, 15, 5],
-        Focus::DeleteWalk => [15, 45, 30, 8, 1, 1],
-        _ => [20, 45, 20, 8, 5, 2],
+    let weights: [u32; 7] = match focus {
+        Focus::Faults => [20, 38, 14, 5, 13, 5, 5],
+        Focus::DeleteWalk => [15, 44, 29, 8, 1, 1, 2],
+        _ => [20, 44, 19, 8, 4, 2, 3],
     };
     let mut cfg = gen::gen_packet_cfg(&mut rng, &weights);
     if focus == Focus::DeleteWalk {
@@ -49,7 +49,11 @@ pub fn make_run(seed: u64, focus: Focus) -> (ops::Init, gensrc::GenSource, Strin
             tid: rng.next_u64() as u16,
         },
         1 => {
-            let n = gen::gen_ldh_name(&mut rng);
+            let mut n = gen::gen_ldh_name(&mut rng);
+            if rng.chance(1, 10) {
+                let l = *rng.pick(&[61usize, 62, 63, 64, 65]);
+                n = crate::model::Name(vec![vec![b'q'; l], b"example".to_vec()]);
+            }
             ops::Init::Query {
                 name_text: String::from_utf8_lossy(&n.text()).into_owned(),
                 qtype: *rng.pick(&[1u16, 28, 15, 2]),
